@@ -7,8 +7,11 @@ Three-way comparison per case, done by the Lean driver:
            helper gave (result or exception class, number of key calls, sizes of the flushes, sleeps), and the
            PYTHON BUILT-IN run by the harness on the same input gives what the Lean reference functions
            (List.map / filter / mergeSort / first extreme / partition) give;
-  * SPEC : the Lean observer `Tools.spec` (= the statement of C14, proved of the model for all inputs by
-           C14_spec_holds) judges the implementation's observation on its own.
+  * SPEC : the Lean observer `Tools.spec` (= the statement of C14: equality with `Tools.expected`, which is written in
+           terms of the built-ins' meaning only; proved of the model for every call inside the statement by
+           C14_spec_holds, and shown to accept nothing but the model's observation by C14_spec_only_model) judges the
+           implementation's observation on its own.  The driver prints `specClause`, which names the first clause
+           that differs; C14_specClause_ok_iff: it says "ok" exactly when `spec` holds.
 The model also carries WHAT KIND OF OBJECT the key / predicate is (FnObj: None, or a function object with the measured
 bool(f) and f == None), what kind of async function aretry's body is (BodyKind: runs when scheduled / runs eagerly
 inside fn.asynq(..)) and five kinds of iterable; the generator varies them (and, model-less: element __eq__/__hash__/
@@ -21,31 +24,56 @@ import random
 PID = "C14"
 LEVEL = "proof"
 LEAN_MODULES = ["AsynqModel.Theorems.C14"]
-THEOREMS = [
+# Headline theorems: statements with content about the modelled behaviour, for all inputs.
+HEADLINE = [
     "AsynqModel.Tools.C14_spec_holds",
     "AsynqModel.Tools.C14_spec_true",
+    "AsynqModel.Tools.C14_spec_only_model",
+    "AsynqModel.Tools.C14_specClause_ok_iff",
     "AsynqModel.Tools.C14_amap",
     "AsynqModel.Tools.C14_afilter",
     "AsynqModel.Tools.C14_afilterfalse",
     "AsynqModel.Tools.C14_asorted_stable",
     "AsynqModel.Tools.C14_asorted_nokey",
     "AsynqModel.Tools.C14_firstExt_is_first",
+    "AsynqModel.Tools.C14_firstExt_min_is_first",
     "AsynqModel.Tools.C14_amax_amin_first",
     "AsynqModel.Tools.C14_amax_first",
     "AsynqModel.Tools.C14_amin_first",
-    "AsynqModel.Tools.C14_amax_varargs",
+    "AsynqModel.Tools.C14_amax_varargs_first",
     "AsynqModel.Tools.C14_amax_errors",
     "AsynqModel.Tools.C14_asift",
     "AsynqModel.Tools.C14_aretry_count",
+    "AsynqModel.Tools.C14_aretry_runs",
     "AsynqModel.Tools.C14_aretry_result",
     "AsynqModel.Tools.C14_aretry_unlisted_immediately",
+    "AsynqModel.Tools.C14_aretry_returns",
+    "AsynqModel.Tools.C14_aretry_exhausted",
     "AsynqModel.Tools.C14_aretry_body_kind",
     "AsynqModel.Tools.C14_aretry_flushes",
-    "AsynqModel.Tools.C14_fn_object_irrelevant",
     "AsynqModel.Tools.C14_falsy_key_is_called",
     "AsynqModel.Tools.C14_one_round",
     "AsynqModel.Tools.C14_one_flush",
+    "AsynqModel.Tools.C14_each_called_once",
+    # necessity witness for the restriction `Call.inStatement` (amax / amin without default=)
+    "AsynqModel.Tools.C14_default_kw_outside_statement",
 ]
+# Hold by construction of the model (one unfolding); they describe HOW tools.py is modelled, their content is the
+# correspondence run (which measures bool(f) / f == None, drives both call forms of amax / amin), not the proof.
+# Audited like the others, not counted as property theorems in MANIFEST / DESIGN.
+BY_CONSTRUCTION = [
+    "AsynqModel.Tools.C14_fn_object_irrelevant",
+    "AsynqModel.Tools.C14_amax_varargs",
+    "AsynqModel.Tools.C14_default_kw_refused",
+]
+THEOREMS = HEADLINE + BY_CONSTRUCTION
+# `default=` of max / min: accepted by the built-ins, refused by amax / amin ("unexpected keyword argument",
+# tools.py:103, 129; `key` is the only keyword tools.pyi declares).  C14 quantifies over iterables, async keys /
+# predicates, `reverse` and the two call forms, so such calls are OUTSIDE the statement (Lean: Call.inStatement,
+# C14_default_kw_outside_statement) and the generator does not produce them.  Set to True to read "agree with the
+# built-ins" as covering that keyword too: the model (which refuses it, like the code) then fails the observer and the
+# check reports signature "amax-amin/default-kw/fail:result".
+INCLUDE_DEFAULT_KW = False
 BUILDS = {"quick": ["py"], "thorough": ["py", "cy"]}
 EXHAUSTIVE = {"quick": False, "thorough": False}
 RULE = ("one helper invocation per case. Exhaustive core: every key/predicate pattern over {0,1}^n (n<=4 quick, n<=6 "
@@ -70,7 +98,8 @@ RULE = ("one helper invocation per case. Exhaustive core: every key/predicate pa
         "nested tasks / on a fresh thread, argument styles (documented, all positional, all by keyword, explicit "
         "key=None), a warm-up on the same thread with the same function object (same call, a failing call, a "
         "computation whose per-element task raised), malformed calls (no argument, one non-iterable argument, "
-        "unexpected keyword, non-iterable input, unorderable values without key, max_tries=0). Non-trivial = at "
+        "a keyword nobody knows, non-iterable input, unorderable values without key, max_tries=0); amax / amin are "
+        "never called with default= (outside the statement, see ASSUMPTIONS). Non-trivial = at "
         "least 2 elements and (two distinct elements with equal keys or a blocking key call), or an aretry case with "
         "at least one retry; distinct by hash of the case")
 TRUSTED = [
@@ -82,14 +111,22 @@ TRUSTED = [
     "model as FnObj; the Python kinds of iterable are mapped to the model's list/tuple/iterator/reiter by "
     "isinstance(list, tuple) / one-shot / re-iterable)",
     "element __eq__/__hash__/__repr__, the kind of key / predicate result object, the argument style, the call form "
-    "and the warm-up are dimensions of the GENERATOR only: the model has no state between invocations and never "
-    "looks at them, which is what the theorems quantifying over every Env say",
+    "and the warm-up are dimensions of the GENERATOR only: the model has no such dimension (no state between "
+    "invocations, elements are opaque tokens), so nothing is PROVED about them - that the real helpers ignore them "
+    "is tested, by the correspondence staying exact when they vary",
     "scheduler contract that the blocking tasks of one yield share one flush (properties C04/C05)",
 ]
 ASSUMPTIONS = [
     "the async key / predicate is a function of the element, blocks at most once on one batch and does not raise",
     "keys are integers (a total order); values without key are ordered by an integer or not orderable at all",
     "single thread, asynq (not asyncio) mode; afilterfalse(None, ..) is outside the statement (no async predicate)",
+    "amax / amin are called with no keyword but key= (or one that max / min reject as well): default=, which max / min "
+    "accept and amax / amin refuse with TypeError (tools.py:103, 129; tools.pyi declares key only), is outside the "
+    "statement - C14 quantifies over iterables, async keys / predicates, reverse and the call forms. Lean: hypothesis "
+    "Call.inStatement of C14_spec_holds / _spec_true / _spec_only_model, shown necessary by "
+    "C14_default_kw_outside_statement; the generator produces such calls only with INCLUDE_DEFAULT_KW = True",
+    "aretry: the exception classes are tokens 1..6 with the one subclass relation 4 < 1; a script shorter than the "
+    "number of attempts is continued by attempts that return 0",
 ]
 CASE_TIMEOUT = 30
 UNKNOWN = 999999
@@ -296,6 +333,8 @@ def gen_collection(rng, helper=None, size=None):
     if helper in ("amax", "amin"):
         flags["args"] = "elems" if rng.random() < 0.4 else "one"
         flags["bad_kw"] = 1 if rng.random() < 0.06 else 0
+        if INCLUDE_DEFAULT_KW and rng.random() < 0.15:
+            flags["bad_kw"] = 2                      # default=<object>: see INCLUDE_DEFAULT_KW
         if flags["args"] == "elems":
             src = "tuple"
             flags.pop("src_falsy", None)
@@ -456,6 +495,8 @@ def neighbours(case, rng):
 def signature(case, v):
     if case["helper"] == "aretry":
         return "aretry/%s" % v["spec"]
+    if case.get("bad_kw") == 2:
+        return "amax-amin/default-kw/%s" % v["spec"]      # one signature for the keyword, whatever the input
     return "%s/%s/%s" % (case["helper"], SRC_MODEL.get(case["src"], case["src"]), v["spec"])
 
 
@@ -553,6 +594,13 @@ def elem_cls(base, eq, rr):
 
 class NotIterable(object):
     pass
+
+
+class DefaultObj(object):
+    """the object passed as default= to max / min / amax / amin"""
+
+
+DFLT = DefaultObj()
 
 
 # ---- kinds of iterable ---------------------------------------------------------------------------------
@@ -964,6 +1012,8 @@ def run_case(case):
             if type(value) is list:
                 return "(ok elems %s)" % tl(value)
         elif helper in ("amax", "amin"):
+            if value is DFLT:
+                return "(ok dflt)"
             return "(ok elem %d)" % tok.get(id(value), UNKNOWN)
         elif helper == "asift":
             if type(value) is tuple and len(value) == 2 and type(value[0]) is list and type(value[1]) is list:
@@ -1016,8 +1066,10 @@ def run_case(case):
                 kw["key"] = sync_key if sync else akey
             elif key_none == 2:
                 kw["key"] = None
-            if case.get("bad_kw"):
-                kw["bogus"] = 1
+            if case.get("bad_kw") == 1:
+                kw["bogus"] = 1                # a keyword neither max / min nor amax / amin know
+            elif case.get("bad_kw") == 2:
+                kw["default"] = DFLT           # max / min accept it, amax / amin do not (outside the statement)
             if sync:
                 return (max if helper == "amax" else min)(*args, **kw)
             return call(tools.amax if helper == "amax" else tools.amin, args, kw)
@@ -1127,9 +1179,11 @@ def run_case(case):
             feats.append("elem-eq=%d" % case["univ"][t]["eq"])
         if case["univ"][t].get("rr"):
             feats.append("elem-repr-raises")
-    for f in ("fn_none", "rev", "bad_kw", "gen", "src_falsy"):
+    for f in ("fn_none", "rev", "gen", "src_falsy"):
         if case.get(f):
             feats.append(f)
+    if case.get("bad_kw"):
+        feats.append("bad_kw" if case["bad_kw"] == 1 else "default_kw")
     if key_none:
         feats.append("key_none=%d" % key_none)
     if helper in ("amax", "amin"):
